@@ -34,6 +34,7 @@ def run(F, rep):
                        "BufRead::read_until returns 0 only at end of input (std contract)"]
     S = c09.alpha_rules(F, rep, "C16")
     eof_rules(F, rep)
+    read_fate_rule(F, rep)
     out_rules(F, rep)
     # (NAME) contig names are part of "equals the input": the name codec clauses of C03 are necessary here too
     from rules import c03
@@ -96,10 +97,41 @@ def run(F, rep):
     rep.floor("C16-LOAD", n, 9, "lazy metadata loading clauses shared with C08 and C03")
 
 
+def read_fate_rule(F, rep, rule="C16-READ"):
+    """A failing read of an input file is a failure of create, not the end of the input: every result of a std read primitive
+    in the FASTA reader (and in helpers it calls) is handed on with `?` or returned - no arm turns an error into a count."""
+    from mirutil import result_fate
+    READ = re.compile(r"io::(BufRead|Read)::(read_until|read_line|read_exact|read_to_end|read_to_string|read|fill_buf)$")
+    n = 0
+    for f in F.funcs.values():
+        if f.crate != "ragc_core" or f.d.get("test") or not re.search(r"^ragc_core::(genome_io|contig_iterator)::", f.key):
+            continue
+        for bi, t in f.calls():
+            if t.get("indirect") or not (READ.search(t.get("decl", "")) or READ.search(t["callee"])):
+                continue
+            if not t["dest"]["ty"].startswith("core::result::Result<"):
+                continue
+            n += 1
+            fate = result_fate(F, f, bi, t)
+            rep.ob(rule, "result of %s in %s is propagated (a read error is not an end of input)" % (t.get("decl", t["callee"]).rsplit("::", 1)[-1], f.key.split("::", 1)[-1]),
+                   fate in ("propagated", "returned"), detail="fate: %s" % fate, site=site_of(f, t),
+                   key="%s | %s | %s" % (rule, f.key, t.get("decl", t["callee"]).rsplit("::", 1)[-1]))
+    rep.floor(rule, n, 1, "std read calls in the FASTA reader")
+
+
+_LINE_READERS = set()
+
+
 def eof_rules(F, rep):
     R = "C16-EOF"
+    # a local helper that returns what read_until returned (io::Result<usize>) stands for read_until (that it hands the
+    # result on unchanged is C16-READ's clause)
+    global _LINE_READERS
+    _LINE_READERS = {f.key for f in F.funcs.values() if f.crate == "ragc_core" and re.search(r"^ragc_core::genome_io::", f.key) and
+                     any(is_call(t, r"BufRead>?::read_until$") for _, t in f.calls()) and
+                     re.search(r"-> (std::io::(error::)?Result<usize>|core::result::Result<usize, std::io::(error::)?Error>)", f.d.get("sig", ""))}
     readers = [f for f in F.funcs.values() if f.crate == "ragc_core" and f.kind == "assocfn" and
-               any(is_call(t, r"BufRead>?::read_until$") for _, t in f.calls()) and
+               any(is_call(t, r"BufRead>?::read_until$") or (not t.get("indirect") and t["callee"] in _LINE_READERS) for _, t in f.calls()) and
                "core::option::Option<(alloc::string::String, alloc::vec::Vec<u8>)>" in f.d.get("sig", "")]
     if not rep.floor(R, len(readers), 1, "raw record reader (calls read_until, returns Option<(String, Contig)>)"):
         return
@@ -148,7 +180,7 @@ def _is_eof_cond(f, ex, c, depth):
     # bytes_read == 0
     if isinstance(e, tuple) and e[0] == "bin" and e[1] == "Eq" and ("const", 0) in (e[2], e[3]) and t is True:
         other = e[3] if e[2] == ("const", 0) else e[2]
-        if contains(other, lambda x: isinstance(x, tuple) and x[0] == "call" and re.search(r"read_until$", x[1])):
+        if contains(other, lambda x: isinstance(x, tuple) and x[0] == "call" and (re.search(r"read_until$", x[1]) or x[1] in _LINE_READERS)):
             return "dominated by `read_until(..) == 0`"
     # reader absent: discriminant of self.reader is None
     if isinstance(e, tuple) and e[0] == "discr" and isinstance(e[1], tuple) and e[1][0] == "field" and e[1][2] == "reader":
